@@ -211,7 +211,7 @@ impl Lattice {
             start_word: n.start_word,
             left_id: n.left_id,
             right_id: n.right_id,
-            min_idx: usize::from(n.min_idx),
+            min_idx: n.min_idx as usize,
             min_cost: n.min_cost,
             word_cost: 0,
         };
